@@ -616,7 +616,8 @@ func (c *Client) readResponse() error {
 		return fmt.Errorf("in %v: %v", token, err)
 	}
 
-	if !c.dec.ExpectCRLF() {
+	// The CRLF of a tagged response is consumed by readResponseTagged
+	if tag == "" && !c.dec.ExpectCRLF() {
 		return fmt.Errorf("in response: %v", c.dec.Err())
 	}
 
@@ -736,6 +737,13 @@ func (c *Client) readResponseTagged(tag, typ string) (startTLS *startTLSCommand,
 		}
 	default:
 		return nil, fmt.Errorf("in resp-cond-state: expected OK, NO or BAD status condition, but got %v", typ)
+	}
+
+	// Only report the command as completed once the whole response line has
+	// been received: a connection cut after "T1 OK " or before the final LF
+	// must not turn into a success
+	if !c.dec.ExpectCRLF() {
+		return nil, fmt.Errorf("in response: %v", c.dec.Err())
 	}
 
 	c.completeCommand(cmd, cmdErr)
